@@ -157,7 +157,7 @@ def run (st : St) (t : List String) : String × St :=
     -- a registration whose acknowledgement cannot be delivered leaves nothing behind that a later peer could observe:
     -- the registry only records the topic and its pattern (`handleStream`), the router adopts and then drops the dead socket
     ("probe=ok", { st with fresh := st.fresh + 1 })
-  | ["stall", _] =>
+  | ["stall1", _] | ["stall", _] =>
     -- c17_other_topic_progress: a registration on another topic completes whatever topic A's channel holds
     -- (for a fresh peer, for a peer that queued up for A itself, and for the client whose publisher A blocks)
     -- (the second `Ok`: a registration on the stalled topic itself is acknowledged before it is queued: handleStream)
